@@ -76,6 +76,13 @@ def cargo_build(pkg="vh", features=None, variant="default", bins=None):
     return outs[0] if len(outs) == 1 else outs
 
 
+def nl_lines(path):
+    """The lines of an ndjson file, split at LF only (str.splitlines also splits at U+2028, U+0085 ... which may
+    occur, unescaped, inside JSON strings)."""
+    with open(path, encoding="utf-8", errors="replace") as f:
+        return [l for l in f.read().split("\n") if l != ""]
+
+
 def run_json(cmd, timeout=3600, cwd=None, env=None, allow_fail=False):
     """Runs a harness command whose last stdout line is a JSON summary."""
     e = dict(os.environ)
@@ -86,7 +93,7 @@ def run_json(cmd, timeout=3600, cwd=None, env=None, allow_fail=False):
     if r.returncode != 0 and not allow_fail:
         sys.stderr.write(r.stderr.decode(errors="replace")[-4000:])
         raise ToolError("harness command failed (%d): %s" % (r.returncode, " ".join(cmd)))
-    out = r.stdout.decode(errors="replace").strip().splitlines()
+    out = [l for l in r.stdout.decode(errors="replace").strip().split("\n") if l.strip() != ""]
     if not out:
         sys.stderr.write(r.stderr.decode(errors="replace")[-4000:])
         raise ToolError("harness command printed nothing: %s" % " ".join(cmd))
